@@ -285,10 +285,12 @@ Proof.
   rewrite (validate_tree_complete _ _ DT OT CovT). reflexivity.
 Qed.
 
-Theorem c02_operator_expressions toks : operator_expression toks = true -> c02_agree toks = true.
+(* the reference tree and the parse result of an operator expression *)
+Lemma opexpr_parse toks : operator_expression toks = true ->
+  exists T ns, pratt toks = Some (erase T) /\ parse_trimmed toks = Ok (nid T, ns) /\
+               denotes ns None T /\ size T <= length ns.
 Proof.
-  intros H. pose proof (trim_tokens_opexpr toks H) as Htrim.
-  destruct toks as [|v rest]; [discriminate|]. unfold operator_expression in H.
+  intros H. destruct toks as [|v rest]; [discriminate|]. unfold operator_expression in H.
   apply andb_true_iff in H. destruct H as [_ Hop].
   destruct (run_opexpr (length (v :: rest)) (v :: rest) 0 init_state false false 0 ([], None) None Hop
               init_gpend eq_refl eq_refl eq_refl) as (st' & fs' & t' & its & Hrun & G' & Hng & Hitems & Hsr & Hrk).
@@ -296,12 +298,18 @@ Proof.
   set (T := close fs' t') in *.
   assert (Hins : spine_insert its = Some T).
   { unfold spine_insert. cbn [nodes init_state length] in Hsr. rewrite Hsr, (no_groups_iff _ Hng). reflexivity. }
-  unfold c02_agree, pratt. rewrite Hitems.
-  rewrite (spine_insert_climb _ T _ Hrk Hins) by lia.
-  unfold parse. rewrite Htrim. cbn [fst snd]. rewrite Hp.
-  pose proof (ordered_size T OT) as Hsz.
-  assert (Hhi : hi T < length (nodes st')) by (eapply denotes_lt; [exact DT|apply has_id_hi]).
-  rewrite (tree_of_denotes (nodes st') T None _ DT) by lia.
+  exists T, (nodes st'). split; [|split; [exact Hp|split; [exact DT|]]].
+  - unfold pratt. rewrite Hitems. rewrite (spine_insert_climb _ T _ Hrk Hins) by lia. reflexivity.
+  - pose proof (ordered_size T OT) as Hsz.
+    assert (Hhi : hi T < length (nodes st')) by (eapply denotes_lt; [exact DT|apply has_id_hi]). lia.
+Qed.
+
+Theorem c02_operator_expressions toks : operator_expression toks = true -> c02_agree toks = true.
+Proof.
+  intros H. pose proof (trim_tokens_opexpr toks H) as Htrim.
+  destruct (opexpr_parse toks H) as (T & ns & Hpr & Hp & DT & Hsz).
+  unfold c02_agree. rewrite Hpr. unfold parse. rewrite Htrim. cbn [fst snd]. rewrite Hp.
+  rewrite (tree_of_denotes ns T None _ DT) by lia.
   apply rtree_eqb_refl.
 Qed.
 
